@@ -16,6 +16,7 @@ warnings.simplefilter('ignore')
 
 XE = None
 PARENTS = {}
+CLS2NAME = {}
 _cache = {}
 
 
@@ -29,8 +30,14 @@ def init():
     XE = XE_
     for n in XE.__all__:
         c = getattr(XE, n)
-        if isinstance(c, type) and issubclass(c, XE.XMLElement) and c.TYPE is not None and c.TYPE.__name__ in containers:
-            PARENTS.setdefault(c.TYPE.__name__, c)
+        if isinstance(c, type) and issubclass(c, XE.XMLElement) and c is not XE.XMLElement:
+            try:
+                c._fill_xsd_tree()
+                CLS2NAME[c.__name__] = c.XSD_TREE.name
+            except Exception:
+                pass
+            if c.TYPE is not None and c.TYPE.__name__ in containers:
+                PARENTS.setdefault(c.TYPE.__name__, c)
 
 
 def class_of(name):
@@ -102,7 +109,7 @@ def run_case(case):
                         st = 'skip'
                 elif k == 'f':
                     r = e.child_container_tree.get_required_element_names(intelligent_choice=bool(op[1]))
-                    req = [x[3:] if x.startswith('XML') else x for x in flat(r)]
+                    req = [CLS2NAME.get(x, x) for x in flat(r)]
                 elif k == 's':
                     s = e.to_string(intelligent_choice=bool(op[1]))
                     import xml.etree.ElementTree as ET
